@@ -828,6 +828,118 @@ Example C11_allocated_pure_example :
   PureProp.pp_evaluate (scaleq K [(a, 1); (b, 2); (c, 4)]%Q) 7 [] [(c, 3%Z)] = PureProp.PP_ok [(c, 3); (a, 4 # 3); (b, 8 # 3)]%Q.
 Proof. vm_compute. repeat split; reflexivity. Qed.
 
+(* ================================================================ wave 6: the repaired score family and allocated score
+   (Model/Cardinal.v [repairs], Model/AllocScore.v [arepairs]; fixes/C12-*.diff).  Notation: k.votes = every ballot count k-fold. *)
+From Coq Require Import Lia.
+From VL Require Proofs.ScoreDict_proofs Proofs.TruncRepair_proofs Proofs.MJ_repair_proofs Proofs.ScaleMJRepair_proofs Proofs.ScaleAllocRepair_proofs Proofs.Scale2Complete_proofs.
+
+Lemma C11_profile_ok_scale : forall (k : Z) (votes : Cardinal.sprofile), (0 < k)%Z -> ScoreDict_proofs.profile_ok votes ->
+  ScoreDict_proofs.profile_ok (map (fun bn => (fst bn, (k * snd bn)%Z)) votes).
+Proof.
+  intros k votes Hk H bn Hin. apply in_map_iff in Hin. destruct Hin as (bn0 & <- & Hin0). destruct (H bn0 Hin0) as (H1 & H2).
+  cbn [fst snd]. split; [nia|exact H2].
+Qed.
+
+(* score voting and majority judgment with the plus rule: with the counted aggregates (fixes/C12-score-counted) - and the
+   truncation repair as long as no truncation is configured - the repaired evaluators ARE the pinned ones on well-formed
+   profiles (C12_counted_aggregate), so they are scale-free in the same configurations *)
+Theorem C11_scale_score_voting_repaired : forall (k : Z) rp (cf : Cardinal.score_cfg) (votes : Cardinal.sprofile) n, (0 < k)%Z ->
+  C11_score_scale_free cf votes -> ScaleMJRepair_proofs.trunc_untouched rp cf -> ScoreDict_proofs.profile_ok votes ->
+  Cardinal.score_voting_x rp cf (map (fun bn => (fst bn, (k * snd bn)%Z)) votes) n = Cardinal.score_voting_x rp cf votes n /\
+  Cardinal.majority_judgment_x rp true cf (map (fun bn => (fst bn, (k * snd bn)%Z)) votes) n = Cardinal.majority_judgment_x rp true cf votes n.
+Proof.
+  intros k rp cf votes n Hk Hcf Ht Hv. pose proof (C11_profile_ok_scale k votes Hk Hv) as Hv'. split.
+  - rewrite (ScaleMJRepair_proofs.score_voting_x_eq rp cf _ n Ht Hv'), (ScaleMJRepair_proofs.score_voting_x_eq rp cf _ n Ht Hv).
+    exact (C11_scale_score_voting k cf votes n Hk Hcf).
+  - rewrite (ScaleMJRepair_proofs.mj_plus_x_eq rp cf _ n Ht Hv'), (ScaleMJRepair_proofs.mj_plus_x_eq rp cf _ n Ht Hv).
+    exact (C11_scale_mj_plus k cf votes n Hk Hcf).
+Qed.
+
+(* where the truncation repair DOES change scale behaviour: the capped cut-off (scores - 1) // 2 is not homogeneous, so a SUM
+   over a candidate whose scores the configured cut-off would wipe out is not k-fold (mean and low median of the middle
+   scores are unchanged).  4 voters, truncation 1/4 (one score at either end), A scored 1 and 5 by two of them, B scored 2 by
+   all: A keeps both scores (sum 6 > 4) - at k = 2 A keeps 1, 5 of 1, 1, 5, 5 (sum 6 < 8).  The pinned code counted nothing
+   for A at either scale.  A property of the repaired parameter in a configuration outside the registered ones. *)
+Theorem C11_scale_score_truncation_sum_capped_refuted : exists votes,
+  let cf := Cardinal.Build_score_cfg Cardinal.FSum Cardinal.UNone 0 (1 # 4) 0 in
+  let votes2 := map (fun bn : Convert.sballot * Z => (fst bn, (2 * snd bn)%Z)) votes in
+  C11_score_scale_free cf votes /\ ScoreDict_proofs.profile_ok votes /\
+  Cardinal.score_voting_x Cardinal.repaired cf votes 1 = inl [Cand 1%positive] /\
+  Cardinal.score_voting_x Cardinal.repaired cf votes2 1 = inl [Cand 2%positive] /\
+  Cardinal.score_voting_x Cardinal.pinned cf votes 1 = inl [Cand 2%positive] /\
+  Cardinal.score_voting_x Cardinal.pinned cf votes2 1 = inl [Cand 2%positive].
+Proof.
+  exists [([(1%positive, 1%Q); (2%positive, 2%Q)], 1%Z); ([(1%positive, 5%Q); (2%positive, 2%Q)], 1%Z); ([(2%positive, 2%Q)], 2%Z)].
+  split; [|split].
+  - split; [reflexivity|]. right. split; [reflexivity|]. split; [vm_compute; discriminate|vm_compute; reflexivity].
+  - intros bn [<-|[<-|[<-|[]]]]; (split; [cbn; discriminate|cbn [fst map]; repeat constructor; cbn [In]; intuition discriminate]).
+  - vm_compute. repeat split; reflexivity.
+Qed.
+
+(* majority judgment, default rule, repaired (fixes/C12-mj-default-exhausted): the evaluator has no crash outcome at any
+   scale - on every profile with positive ballot counts it answers or refuses a lasting tie (VotingSystemError), nothing else - so the recorded class of finding
+   C11-mj-default-scale (a StatisticsError at one scale, an answer at the other) is empty; and on complete ballots it is the
+   pinned evaluator, hence scale-free (C11_scale_mj_default_full) *)
+Definition C11_scale_mj_default_repaired_full_statement : Prop :=
+  forall (k : Z) (cf : Cardinal.score_cfg) (votes : Cardinal.sprofile) n, (0 < k)%Z -> (1 <= n)%nat ->
+    Cardinal.sc_min_count cf = 0%Z -> Qle_bool (Cardinal.sc_trunc cf) 0 = true -> TruncRepair_proofs.profile_pos votes ->
+    Cardinal.majority_judgment_x Cardinal.repaired false cf (map (fun bn => (fst bn, (k * snd bn)%Z)) votes) n
+    = Cardinal.majority_judgment_x Cardinal.repaired false cf votes n.
+
+Theorem C11_scale_mj_default_no_crash : forall (k : Z) rp plus (cf : Cardinal.score_cfg) (votes : Cardinal.sprofile) n, (0 < k)%Z -> (1 <= n)%nat ->
+  Cardinal.rp_trunc rp = true -> Cardinal.rp_mj rp = true -> TruncRepair_proofs.profile_pos votes ->
+  match Cardinal.majority_judgment_x rp plus cf (map (fun bn => (fst bn, (k * snd bn)%Z)) votes) n with
+  | inl _ => True | inr e => e = Cardinal.SE_vse end /\
+  match Cardinal.majority_judgment_x rp plus cf votes n with
+  | inl _ => True | inr e => e = Cardinal.SE_vse end.
+Proof.
+  intros k rp plus cf votes n Hk Hn Ht Hm Hv. split; apply MJ_repair_proofs.majority_judgment_x_answers_or_refuses; try assumption.
+  intros bn Hin. apply in_map_iff in Hin. destruct Hin as (bn0 & <- & Hin0). destruct (Hv bn0 Hin0) as (H1 & H2).
+  cbn [fst snd]. split; [nia|exact H2].
+Qed.
+
+Theorem C11_scale_mj_default_repaired_partial : forall (k : Z) rp (cf : Cardinal.score_cfg) (votes : Cardinal.sprofile) n, (0 < k)%Z -> (1 <= n)%nat ->
+  Cardinal.sc_min_count cf = 0%Z -> Qle_bool (Cardinal.sc_trunc cf) 0 = true -> C11_complete_ballots votes ->
+  Cardinal.majority_judgment_x rp false cf (map (fun bn => (fst bn, (k * snd bn)%Z)) votes) n = Cardinal.majority_judgment_x rp false cf votes n.
+Proof.
+  intros k rp cf votes n Hk Hn Hmc Htr Hc.
+  assert (Hv : ScoreDict_proofs.profile_ok votes).
+  { intros [b w] Hin. destruct (Hc b w Hin) as (H1 & H2 & _). cbn [fst snd]. split; [lia|exact H2]. }
+  assert (Hc' : C11_complete_ballots (map (fun bn => (fst bn, (k * snd bn)%Z)) votes)).
+  { intros b w Hin. apply in_map_iff in Hin. destruct Hin as ([b0 w0] & E & Hin0). cbn [fst snd] in E. injection E as <- <-.
+    destruct (Hc b0 w0 Hin0) as (H1 & H2 & H3). split; [nia|]. split; [exact H2|]. intros c Hcin. apply H3.
+    rewrite flat_map_concat_map, map_map in Hcin. cbn [fst] in Hcin. rewrite <- flat_map_concat_map in Hcin. exact Hcin. }
+  pose proof (C11_profile_ok_scale k votes Hk Hv) as Hv'.
+  assert (Ht : ScaleMJRepair_proofs.trunc_untouched rp cf) by (right; exact Htr).
+  rewrite (ScaleMJRepair_proofs.mj_default_x_eq_balanced rp cf _ n Ht Hv' Hn), (ScaleMJRepair_proofs.mj_default_x_eq_balanced rp cf votes n Ht Hv Hn).
+  - exact (C11_scale_mj_default_full k cf votes n Hk Hmc Htr Hc).
+  - intros sc Hsc. exists (Scale2Score_proofs.sp_total votes). exact (Scale2Complete_proofs.complete_balanced cf votes sc Hmc Htr Hc Hsc).
+  - intros sc Hsc. eexists. exact (Scale2Complete_proofs.complete_balanced cf _ sc Hmc Htr Hc' Hsc).
+Qed.
+
+(* the witness of C11_scale_mj_default_partial_ballots_refuted with the repair: [A; C] at k = 1, 2, 3, 10^25 + 7 *)
+Example C11_mj_default_repaired_example :
+  let cf := Cardinal.Build_score_cfg Cardinal.FMedianLow Cardinal.UNone 0 0 0 in
+  let votes : Cardinal.sprofile := [([(1%positive, 1%Q); (2%positive, 0%Q); (3%positive, 0%Q)], 3%Z); ([(3%positive, 1%Q)], 3%Z); ([(3%positive, 0%Q)], 2%Z)] in
+  Cardinal.majority_judgment_x Cardinal.repaired false cf votes 2 = inl [Cand 1%positive; Cand 3%positive] /\
+  Cardinal.majority_judgment_x Cardinal.repaired false cf (map (fun bn => (fst bn, (2 * snd bn)%Z)) votes) 2 = inl [Cand 1%positive; Cand 3%positive] /\
+  Cardinal.majority_judgment_x Cardinal.repaired false cf (map (fun bn => (fst bn, (3 * snd bn)%Z)) votes) 2 = inl [Cand 1%positive; Cand 3%positive].
+Proof. vm_compute. repeat split; reflexivity. Qed.
+
+(* allocated score with any set of the repairs: the state simulation carries over (the search for the strongest supporters
+   reads the ballots only; the level-at-zero round hands the same dictionary to get_n_best in both runs) *)
+Theorem C11_scale_allocated_score_repaired : forall (k : Q) ra (q : Quota.quota_spec) orders (votes : AllocScore.wprofile) n prev mx,
+  (0 < k)%Q -> ScaleAlloc_proofs.qspec_homog q = true ->
+  AllocScore.alloc_distribute_x ra (ScaleAlloc_proofs.qspec_scale k q) orders (map (fun bw => (fst bw, (k * snd bw)%Q)) votes) n prev mx
+  = AllocScore.alloc_distribute_x ra q orders votes n prev mx /\
+  AllocScore.alloc_select_x ra (ScaleAlloc_proofs.qspec_scale k q) orders (map (fun bw => (fst bw, (k * snd bw)%Q)) votes) n
+  = AllocScore.alloc_select_x ra q orders votes n.
+Proof.
+  intros k ra q orders votes n prev mx Hk Hq. split.
+  - exact (ScaleAllocRepair_proofs.alloc_distribute_x_rel k Hk ra q orders _ _ n prev mx Hq (ScaleAlloc_proofs.wprel_scale k votes)).
+  - exact (ScaleAllocRepair_proofs.alloc_select_x_rel k Hk ra q orders _ _ n Hq (ScaleAlloc_proofs.wprel_scale k votes)).
+Qed.
+
 Print Assumptions C11_scale_plurality.
 Print Assumptions C11_scale_highest_averages.
 Print Assumptions C11_scale_pairwise_wins.
@@ -900,3 +1012,8 @@ Print Assumptions C11_scale_eliminate_one.
 Print Assumptions C11_scale_allocated_score_distributor.
 Print Assumptions C11_scale_allocated_score.
 Print Assumptions C11_scale_pure_proportionality.
+Print Assumptions C11_scale_score_voting_repaired.
+Print Assumptions C11_scale_score_truncation_sum_capped_refuted.
+Print Assumptions C11_scale_mj_default_no_crash.
+Print Assumptions C11_scale_mj_default_repaired_partial.
+Print Assumptions C11_scale_allocated_score_repaired.
